@@ -152,7 +152,7 @@ impl Axecutor {
             Operand::Register(r) => self.reg_read_64(r)?,
             Operand::Memory(m) => self.mem_read_64(self.mem_addr(m))?,
             _ => fatal_error!("Invalid operand {:?} for Idiv_rm64", op),
-        } as i64 as i128;
+        } as u128 as i128;
 
         if src_val == 0 {
             return Err(AxError::from(format!(
